@@ -1,7 +1,7 @@
 (* Proofs about the receive path: the extractor meets the format spec (LinkSpec) decision by
    decision; deliveries = greedy spec parse; chunk independence; totality; ACK discipline. *)
 From Coq Require Import NArith List Bool Lia Arith.
-From ZB Require Import Base.Bytes Crc.CrcSpec Crc.CrcModel Crc.CrcProofs Link.LinkSpec Link.Frame
+From ZB Require Import Base.Bytes Crc.CrcSpec Crc.CrcModel Crc.CrcProofs Link.LinkSpec Link.LinkSpecProofs Link.Frame
   Link.Resync Link.Rx Link.RxSpec gen.GenConsts.
 Import ListNotations.
 Open Scope N_scope.
@@ -285,7 +285,7 @@ Proof.
   destruct (spec_decode s) as [[w rest]|] eqn:E.
   - destruct (spec_decode_shape _ _ _ E) as (_ & _ & n & Hn & Hr & _). f_equal.
     apply IH; subst rest; rewrite skipn_length; lia.
-  - destruct (waits s); [reflexivity|]. apply IH; destruct s; simpl in *; lia.
+  - destruct (waits s); [reflexivity|]. apply IH; destruct s; cbn [length tl] in *; lia.
 Qed.
 
 Lemma sp_unfold : forall off s, sp off s =
@@ -300,7 +300,7 @@ Proof.
   destruct (spec_decode s) as [[w rest]|] eqn:E.
   - destruct (spec_decode_shape _ _ _ E) as (_ & _ & n & Hn & Hr & _). f_equal. unfold sp.
     apply spec_parse_at_fuel; subst rest; rewrite skipn_length; lia.
-  - destruct (waits s); [reflexivity|]. unfold sp. apply spec_parse_at_fuel; destruct s; simpl in *; lia.
+  - destruct (waits s); [reflexivity|]. unfold sp. apply spec_parse_at_fuel; destruct s; cbn [length tl] in *; lia.
 Qed.
 
 Lemma sp_frames_off : forall n s off off', (length s <= n)%nat -> map snd (sp off s) = map snd (sp off' s).
@@ -311,7 +311,7 @@ Proof.
     destruct (spec_decode s) as [[w rest]|] eqn:E.
     + destruct (spec_decode_shape _ _ _ E) as (_ & _ & k & Hk & Hr & _). cbn [map snd]. f_equal.
       apply IH. subst rest. rewrite skipn_length. lia.
-    + destruct (waits s); [reflexivity|]. apply IH. destruct s; simpl in *; lia.
+    + destruct (waits s); [reflexivity|]. apply IH. destruct s; cbn [length tl] in *; lia.
 Qed.
 
 Lemma spec_parse_sp : forall s, spec_parse s = map snd (sp 0 s).
@@ -353,7 +353,7 @@ Proof.
   - apply sp_short. lia.
   - destruct (le_lt_dec 7 (length y)) as [H7|H7]; [|apply sp_short; exact H7].
     rewrite sp_nomarker_step; [|exact H7|exact (Hn O)].
-    apply IH; [destruct y; simpl in *; lia|]. intros k. rewrite mk_tl. apply Hn.
+    apply IH; [destruct y; cbn [length tl] in *; lia|]. intros k. rewrite mk_tl. apply Hn.
 Qed.
 
 Lemma dels_short' : forall y, (length y < 7)%nat -> dels y = [].
@@ -413,7 +413,7 @@ Proof.
     + destruct (waits t); [destruct Hin|].
       assert (Htl : tl t = skipn (S off) s).
       { subst t. replace (S off) with (off + 1)%nat by lia. rewrite <- skipn_skipn_add. destruct (skipn off s); reflexivity. }
-      destruct (IH s _ (tl t) ltac:(destruct t; simpl in *; lia) Htl o w Hin) as (r' & A & B). exists r'. split; [exact A|lia].
+      destruct (IH s _ (tl t) ltac:(destruct t; cbn [length tl] in *; lia) Htl o w Hin) as (r' & A & B). exists r'. split; [exact A|lia].
 Qed.
 
 Lemma spec_decode_len7 : forall s w rest, spec_decode s = Some (w, rest) -> (7 <= length s)%nat.
@@ -571,7 +571,8 @@ Proof.
   - cbn [fold_left fst snd outs_of rx_run]. destruct st; reflexivity.
   - inversion Hcs as [|? ? Hc Hcs']; subst.
     assert (Hbc : bytes_ok (rx_buf st ++ c)) by (apply bytes_ok_app; assumption).
-    cbn [fold_left rx_run]. unfold feed at 2, Resync.feed. cbn [fst snd app]. fold dels. fold resid.
+    cbn [fold_left rx_run].
+    replace (feed ([], rx_buf st) c) with (dels (rx_buf st ++ c), resid (rx_buf st ++ c)) by reflexivity.
     rewrite feed_acc. cbn [fst snd].
     pose proof (data_received_spec h st c Hbc) as D. rewrite outs_of_app.
     destruct (outs_of (rx_pack_seq st) (rx_ack_event st) (rx_open st) (dels (rx_buf st ++ c))) as [[p1 e1] o1].
@@ -608,4 +609,194 @@ Proof.
   rewrite EF in R.
   destruct (outs_of (rx_pack_seq st) (rx_ack_event st) (rx_open st) (spec_parse (rx_buf st ++ concat (c :: cs)))) as [[p e] o].
   eexists. exact R.
+Qed.
+
+(* ---------------------------------------------------------------------- *)
+(* further consequences used by the property files *)
+
+(* offsets of the parse are increasing and the frames do not overlap: each once, in stream order *)
+Fixpoint incr (lo : nat) (l : list (nat * wframe)) : Prop :=
+  match l with
+  | [] => True
+  | (o, w) :: l' => (lo <= o)%nat /\ incr (o + N.to_nat (w_size w + 2)) l'
+  end.
+
+Lemma incr_weaken : forall l lo lo', (lo' <= lo)%nat -> incr lo l -> incr lo' l.
+Proof. intros [|[o w] l] lo lo' H I; [exact I|]. destruct I as [A B]. split; [lia|exact B]. Qed.
+
+Theorem spec_parse_increasing : forall n t off, (length t <= n)%nat -> incr off (sp off t).
+Proof.
+  induction n as [|n IH]; intros t off Hl.
+  - rewrite sp_short by lia. exact I.
+  - rewrite sp_unfold. destruct (length t <? 7)%nat eqn:L7; [exact I|]. apply Nat.ltb_ge in L7.
+    destruct (spec_decode t) as [[w rest]|] eqn:E.
+    + destruct (spec_decode_shape _ _ _ E) as (_ & _ & k & Hk & Hr & Hn). cbn [incr]. split; [lia|].
+      replace (off + N.to_nat (w_size w + 2))%nat with (off + (length t - length rest))%nat
+        by (subst rest; rewrite skipn_length; lia).
+      apply IH. subst rest. rewrite skipn_length. lia.
+    + destruct (waits t); [exact I|]. apply (incr_weaken _ (S off)); [lia|]. apply IH. destruct t; cbn [length tl] in *; lia.
+Qed.
+
+(* a data frame among the parsed frames is handed up *)
+Lemma outs_of_delivers : forall fs ps ev opn w, In w fs -> w_ack w = false ->
+  In (ODeliver w) (snd (outs_of ps ev opn fs)).
+Proof.
+  induction fs as [|f fs IH]; intros ps ev opn w Hin Hw; [destruct Hin|].
+  cbn [outs_of]. destruct Hin as [->|Hin].
+  - rewrite Hw. destruct (outs_of ps ev opn fs) as [[p e] o]. cbn [snd]. apply in_or_app. right. left. reflexivity.
+  - destruct (w_ack f).
+    + destruct (ack_of f =? ps).
+      * specialize (IH (next_seq ps) (ev_set ev) opn w Hin Hw).
+        destruct (outs_of (next_seq ps) (ev_set ev) opn fs) as [[p e] o]. cbn [snd] in *. apply in_or_app. right. exact IH.
+      * apply IH; assumption.
+    + specialize (IH ps ev opn w Hin Hw). destruct (outs_of ps ev opn fs) as [[p e] o]. cbn [snd] in *.
+      apply in_or_app. right. right. exact IH.
+Qed.
+
+(* writes and deliveries only: per data frame, one ACK write then the delivery; nothing for ACK frames *)
+Definition is_wd (o : rxout) : bool := match o with OAckSet => false | _ => true end.
+
+Lemma land_lt_pow2 : forall n a b, b < 2 ^ n -> N.land a b < 2 ^ n.
+Proof.
+  intros n a b Hb.
+  assert (E : N.land a b = (N.land a b) mod 2 ^ n).
+  { apply N.bits_inj. intros m. destruct (N.lt_ge_cases m n) as [Hlt|Hge].
+    - rewrite N.mod_pow2_bits_low by exact Hlt. reflexivity.
+    - rewrite N.mod_pow2_bits_high by exact Hge. rewrite N.land_spec.
+      rewrite (testbit_high_small n b m Hb Hge). apply andb_false_r. }
+  rewrite E. apply N.mod_lt. apply N.pow_nonzero. lia.
+Qed.
+
+Lemma pseq_of_lt4 : forall f, pseq_of f < 4.
+Proof.
+  intros f. unfold pseq_of. change llflag_PacketSeq with 12. rewrite N.shiftr_div_pow2. change (2 ^ 2) with 4.
+  apply N.div_lt_upper_bound; [discriminate|]. apply (land_lt_pow2 4). reflexivity.
+Qed.
+
+Lemma ack_bytes_spec : forall q, q < 4 -> ack_bytes q = spec_ack_bytes q.
+Proof. intros q H. assert (q = 0 \/ q = 1 \/ q = 2 \/ q = 3) as [-> | [-> | [-> | ->]]] by lia; vm_compute; reflexivity. Qed.
+
+Definition expected_wd (opn : bool) (fs : list wframe) : list rxout :=
+  flat_map (fun f => if w_ack f then [] else (if opn then [OWrite (spec_ack_bytes (pseq_of f))] else []) ++ [ODeliver f]) fs.
+
+Theorem outs_of_wd : forall fs ps ev opn, filter is_wd (snd (outs_of ps ev opn fs)) = expected_wd opn fs.
+Proof.
+  induction fs as [|f fs IH]; intros ps ev opn; [reflexivity|].
+  cbn [outs_of expected_wd flat_map]. fold (expected_wd opn fs).
+  destruct (w_ack f).
+  - destruct (ack_of f =? ps).
+    + specialize (IH (next_seq ps) (ev_set ev) opn). destruct (outs_of (next_seq ps) (ev_set ev) opn fs) as [[p e] o].
+      cbn [snd] in *. rewrite filter_app. destruct ev; cbn [filter is_wd app]; exact IH.
+    + apply IH.
+  - specialize (IH ps ev opn). destruct (outs_of ps ev opn fs) as [[p e] o]. cbn [snd] in *.
+    rewrite !filter_app, IH. rewrite (ack_bytes_spec _ (pseq_of_lt4 f)).
+    destruct opn; reflexivity.
+Qed.
+
+(* ---------------------------------------------------------------------- *)
+(* never deaf: after ANY earlier input, from ANY buffer state, a quiet gap followed by a
+   well-formed data frame gets that frame handed up (and hence acknowledged) *)
+
+Lemma claims_size_lt : forall t sz fl, bytes_ok t -> claims t = Some (sz, fl) -> sz < 65536.
+Proof.
+  intros t sz fl Hok. destruct t as [|m0 [|m1 [|s0 [|s1 [|ty [|f [|c8 r7]]]]]]]; try discriminate.
+  unfold claims. destruct (_ && _); [|discriminate]. intros E. assert (Esz : sz = s0 + 256 * s1) by congruence. rewrite Esz. clear E.
+  unfold bytes_ok in Hok. rewrite !Forall_cons_iff in Hok. destruct Hok as (_ & _ & A & B & _). lia.
+Qed.
+
+Lemma claims_zero_head : forall t, claims (0 :: t) = None.
+Proof. intros t. destruct t as [|m1 [|s0 [|s1 [|ty [|f [|c8 r7]]]]]]; reflexivity. Qed.
+
+Definition GAP : nat := N.to_nat 65537.
+
+Theorem spec_parse_probe : forall pre w, bytes_ok pre -> wf w ->
+  In (length pre + GAP, w)%nat (spec_parse_pos (pre ++ repeat 0 GAP ++ spec_encode w)).
+Proof.
+  intros pre w Hpre W.
+  set (s := pre ++ repeat 0 GAP ++ spec_encode w).
+  assert (Hskip : forall k, (k <= GAP)%nat -> skipn (length pre + k) s = repeat 0 (GAP - k) ++ spec_encode w).
+  { intros k Hk. unfold s. rewrite <- skipn_skipn_add. rewrite skipn_app_exact.
+    rewrite skipn_app. rewrite repeat_length.
+    replace (k - GAP)%nat with O by lia. cbn [skipn]. f_equal.
+    replace GAP with (k + (GAP - k))%nat at 1 by lia. rewrite repeat_app, skipn_app, repeat_length, Nat.sub_diag.
+    rewrite skipn_all2 by (rewrite repeat_length; lia). reflexivity. }
+  apply (spec_complete s (length pre + GAP) w []).
+  - rewrite (Hskip GAP (le_n _)), Nat.sub_diag. cbn [repeat app].
+    rewrite <- (app_nil_r (spec_encode w)). apply spec_decode_encode. exact W.
+  - intros p sz fl Hp Cl.
+    assert (Sok : bytes_ok s).
+    { unfold s. apply bytes_ok_app; [exact Hpre|]. apply bytes_ok_app; [apply bytes_ok_repeat0|]. apply wf_encode_ok. exact W. }
+    destruct (le_lt_dec (length pre) p) as [Hge|Hlt].
+    + exfalso. rewrite <- (Nat.sub_add (length pre) p Hge), Nat.add_comm in Cl.
+      rewrite Hskip in Cl by lia.
+      destruct (GAP - (p - length pre))%nat as [|g] eqn:Eg; [lia|]. cbn [repeat app] in Cl.
+      rewrite claims_zero_head in Cl. discriminate.
+    + pose proof (claims_size_lt _ _ _ (bytes_ok_skipn p s Sok) Cl) as Hsz.
+      assert (HG : N.of_nat GAP = 65537) by (unfold GAP; rewrite N2Nat.id; reflexivity).
+      rewrite Nat2N.inj_add, HG. lia.
+Qed.
+
+Lemma rx_run_delivers : forall h st c cs w, bytes_ok (rx_buf st) -> Forall bytes_ok (c :: cs) ->
+  In w (spec_parse (rx_buf st ++ concat (c :: cs))) -> w_ack w = false ->
+  In (ODeliver w) (snd (fst (rx_run h st (c :: cs)))).
+Proof.
+  intros h st c cs w Hb Hcs Hin Hw.
+  pose proof (rx_chunk_independent_exact h st c cs Hb Hcs) as X.
+  pose proof (outs_of_delivers _ (rx_pack_seq st) (rx_ack_event st) (rx_open st) w Hin Hw) as D.
+  destruct (outs_of (rx_pack_seq st) (rx_ack_event st) (rx_open st) (spec_parse (rx_buf st ++ concat (c :: cs)))) as [[p e] o].
+  destruct X as [buf X]. rewrite X. exact D.
+Qed.
+
+(* promptness: whatever the chunking so far, a complete well-formed data frame of the bytes received
+   so far has been handed up, unless it starts inside the declared extent of an earlier header that
+   passed the header checksum *)
+Theorem rx_prompt : forall h st c cs i w rest, bytes_ok (rx_buf st) -> Forall bytes_ok (c :: cs) ->
+  let s := rx_buf st ++ concat (c :: cs) in
+  spec_decode (skipn i s) = Some (w, rest) -> w_ack w = false ->
+  (forall p sz fl, (p < i)%nat -> claims (skipn p s) = Some (sz, fl) -> N.of_nat p + 2 + sz <= N.of_nat i) ->
+  In (ODeliver w) (snd (fst (rx_run h st (c :: cs)))).
+Proof.
+  intros h st c cs i w rest Hb Hcs s E Hw Hc. apply rx_run_delivers; try assumption.
+  unfold spec_parse. apply (in_map snd _ (i, w)). exact (spec_complete s i w rest E Hc).
+Qed.
+
+Theorem rx_never_deaf : forall h st c cs w, bytes_ok (rx_buf st) -> Forall bytes_ok (c :: cs) -> wf w -> w_ack w = false ->
+  In (ODeliver w) (snd (fst (rx_run h st (c :: cs ++ [repeat 0 GAP ++ spec_encode w])))).
+Proof.
+  intros h st c cs w Hb Hcs W Hw.
+  assert (Hmore : bytes_ok (repeat 0 GAP ++ spec_encode w))
+    by (apply bytes_ok_app; [apply bytes_ok_repeat0 | apply wf_encode_ok; exact W]).
+  assert (Hcs' : Forall bytes_ok (c :: cs ++ [repeat 0 GAP ++ spec_encode w])).
+  { inversion Hcs; subst. constructor; [assumption|]. apply Forall_app. split; [assumption|]. constructor; [exact Hmore|constructor]. }
+  apply rx_run_delivers; try assumption.
+  replace (rx_buf st ++ concat (c :: cs ++ [repeat 0 GAP ++ spec_encode w]))
+    with ((rx_buf st ++ concat (c :: cs)) ++ repeat 0 GAP ++ spec_encode w).
+  - unfold spec_parse. apply (in_map snd _ ((length (rx_buf st ++ concat (c :: cs)) + GAP)%nat, w)). apply spec_parse_probe; [|exact W].
+    apply bytes_ok_app; [exact Hb|]. apply bytes_ok_concat. exact Hcs.
+  - cbn [concat]. rewrite concat_app. cbn [concat]. rewrite app_nil_r, <- !app_assoc. reflexivity.
+Qed.
+
+(* the receiver's behaviour does not depend on whether the upper layer fails *)
+Lemma handle_frames_handler : forall h1 h2 fs st, handle_frames h1 st fs = handle_frames h2 st fs.
+Proof.
+  intros h1 h2 fs. induction fs as [|f fs IH]; intros st; [reflexivity|].
+  cbn [handle_frames]. replace (handle_frame h2 st f) with (handle_frame h1 st f) by reflexivity.
+  destruct (handle_frame h1 st f) as [st1 o1]. rewrite IH. reflexivity.
+Qed.
+
+Theorem rx_handler_irrelevant : forall h1 h2 chunks st, rx_run h1 st chunks = rx_run h2 st chunks.
+Proof.
+  intros h1 h2 chunks. induction chunks as [|c cs IH]; intros st; [reflexivity|].
+  cbn [rx_run]. replace (data_received h2 st c) with (data_received h1 st c).
+  - destruct (data_received h1 st c) as [[st1 o1] r1]. rewrite IH. reflexivity.
+  - unfold data_received. destruct (extract_frames_x _ _) as [[fs r] x].
+    rewrite (handle_frames_handler h1 h2). reflexivity.
+Qed.
+
+(* totality, for every link state *)
+Theorem rx_total : forall h st c cs, bytes_ok (rx_buf st) -> Forall bytes_ok (c :: cs) ->
+  snd (rx_run h st (c :: cs)) = false.
+Proof.
+  intros h st c cs Hb Hcs. pose proof (rx_chunk_independent_exact h st c cs Hb Hcs) as X.
+  destruct (outs_of _ _ _ _) as [[p e] o]. destruct X as [buf X]. rewrite X. reflexivity.
 Qed.
